@@ -84,7 +84,7 @@ deriving DecidableEq, Repr, Inhabited
 structure MState where
   out : List Entry
   picked : List Name
-deriving Repr, Inhabited
+deriving DecidableEq, Repr, Inhabited
 
 /-- `out.add(e); picked[name] = struct{}{}`. -/
 def MState.add (st : MState) (k : Name) (e : Entry) : MState :=
@@ -105,22 +105,20 @@ def moveRec (inp : List Entry) : Nat → Name → MState → MState × Status
     else if (get inp k).isNone && (get st.out k).isNone && !st.picked.contains k then
       (st, .notFound)
     else
-      -- parent, _ := path.Split(strings.TrimSuffix(name, "/"))
-      match moveRec inp fuel k.dropLast st with
-      | (st1, .ok) =>
-        let r2 :=
-          match get inp k with
-          | some e => if e.isLink then moveRec inp fuel (cleanEntryName e.linkName) st1 else (st1, .ok)
-          | none => (st1, .ok)
-        match r2 with
-        | (st2, .ok) =>
-          if st2.picked.contains k then (st2, .ok)
-          else
-            match get inp k with
-            | some e => (st2.add k e, .ok)
-            | none => (st2, .ok)
-        | r => r
-      | r => r
+      -- parent, _ := path.Split(strings.TrimSuffix(name, "/")); if err := moveRec(parent, …); err != nil { return err }
+      let r1 := moveRec inp fuel k.dropLast st
+      if r1.2 ≠ .ok then r1 else
+      -- if e, ok := in.get(name); ok && e.header.Typeflag == tar.TypeLink { if err := moveRec(e.header.Linkname, …) … }
+      let r2 :=
+        match get inp k with
+        | some e => if e.isLink then moveRec inp fuel (cleanEntryName e.linkName) r1.1 else (r1.1, .ok)
+        | none => (r1.1, .ok)
+      if r2.2 ≠ .ok then r2 else
+      if r2.1.picked.contains k then (r2.1, .ok)       -- if _, done := picked[name]; done { return nil }
+      else
+        match get inp k with
+        | some e => (r2.1.add k e, .ok)
+        | none => (r2.1, .ok)
 
 /-! ## `sortEntries` -/
 
@@ -132,7 +130,7 @@ inductive LoopRes where
   | done (st : MState) (missed : List String)
   | err
   | diverge
-deriving Repr, Inhabited
+deriving DecidableEq, Repr, Inhabited
 
 /-- `for _, l := range prioritized { moveRec … }` with the allow-not-found handling. -/
 def sortLoop (inp : List Entry) (fuel : Nat) (allow : Bool) :
@@ -149,7 +147,7 @@ inductive Outcome where
   | ok (entries : List Entry) (missed : List String)
   | err
   | diverge
-deriving Repr, Inhabited
+deriving DecidableEq, Repr, Inhabited
 
 /-- Which landmark `sortEntries` adds. -/
 def landmarkFor (prioritized : List String) : Entry :=
